@@ -58,8 +58,10 @@ fn classify(data: &[u8]) -> Vec<(Region, usize)> {
     out
 }
 
-fn content_key(t: &Value) -> String {
-    json!([t["k"], t["rc"], t["names"], t["rows"]]).to_string()
+/// everything a load decodes: k, strand mode, names, k-mers with their bases, and the stored count column
+fn content_key(l: &Value) -> String {
+    let t = &l["table"];
+    json!([t["k"], t["rc"], t["names"], t["rows"], l["counts"]]).to_string()
 }
 
 fn outcome(path: &str, orig: &str) -> (&'static str, String) {
@@ -75,7 +77,7 @@ fn outcome(path: &str, orig: &str) -> (&'static str, String) {
             return ("rejected", b["err"].as_str().unwrap_or("").chars().take(60).collect());
         }
     };
-    if content_key(&acc["table"]) == orig {
+    if content_key(&acc) == orig {
         ("same", String::new())
     } else {
         ("different", String::new())
@@ -97,7 +99,7 @@ pub fn run(args: &[String]) -> Value {
     if !pristine["ok"].as_bool().unwrap_or(false) {
         return json!({"error": "pristine file does not load"});
     }
-    let orig = content_key(&pristine["table"]);
+    let orig = content_key(&pristine);
 
     // fault list: (kind 0=trunc / 1=flip, offset, bit)
     let mut faults: Vec<(u8, usize, u8)> = Vec::new();
@@ -125,6 +127,17 @@ pub fn run(args: &[String]) -> Value {
         while cut < data.len() {
             faults.push((0, cut, 0));
             cut += 1 + (next() % 33) as usize;
+        }
+        // the last frame (the tail of the serialised table) exhaustively when it is short: every bit, every cut
+        let nfr = regions.iter().map(|r| r.1).max().unwrap_or(0);
+        let last: Vec<usize> = (0..data.len()).filter(|o| regions[*o].1 == nfr).collect();
+        if nfr > 1 && last.len() <= 6000 {
+            for off in last {
+                faults.push((0, off, 0));
+                for bit in 0..8 {
+                    faults.push((1, off, bit));
+                }
+            }
         }
         // the last 64 prefixes exactly
         for cut in data.len().saturating_sub(64)..data.len() {
